@@ -20,6 +20,7 @@ pub struct C05 {
     n_gen: u64,
     n_comp: u64,
     n_shape: u64,
+    n_samples: u64,
 }
 
 impl C05 {
@@ -35,6 +36,7 @@ impl C05 {
             n_gen: scaled(tier.pick(20_000, 500_000), scale),
             n_comp: scaled(tier.pick(8_000, 200_000), scale),
             n_shape: scaled(tier.pick(256, 6_400), scale),
+            n_samples: tier.pick(16, 3 * streams::repo_sample_count()),
         }
     }
 
@@ -165,7 +167,7 @@ fn header_noise(r: &mut Rng) -> (String, Vec<u8>) {
 
 impl Monitor for C05 {
     fn ncases(&self) -> u64 {
-        self.n_tiny + self.n_hdr + self.n_wrap + self.n_gen + self.n_comp + self.n_shape
+        self.n_tiny + self.n_hdr + self.n_wrap + self.n_gen + self.n_comp + self.n_shape + self.n_samples
     }
 
     fn run_case(&mut self, k: u64, ctx: &mut Ctx) {
@@ -227,6 +229,23 @@ impl Monitor for C05 {
             return;
         }
         k -= self.n_wrap;
+        if k >= self.n_gen + self.n_comp + self.n_shape {
+            let idx = k - self.n_gen - self.n_comp - self.n_shape;
+            let mut r = Rng::derive(self.seed, 0x0506, idx, 0);
+            let pick = if self.tier == Tier::Quick { r.below(1000) } else { idx };
+            match streams::repo_sample(pick) {
+                Some((name, b)) => {
+                    ctx.count("cases:repo_sample");
+                    self.judge_sampled(&b, &format!("repo sample: {}", name), ctx);
+                    for _ in 0..3 {
+                        let (how, m) = streams::mutate(&mut r, &b, None);
+                        self.judge_sampled(&m, &format!("{} <- repo sample: {}", how, name), ctx);
+                    }
+                }
+                None => ctx.count("repo_samples_missing"),
+            }
+            return;
+        }
         let (src, mut r) = if k < self.n_gen {
             (0, Rng::derive(self.seed, 0x0502, k, 0))
         } else if k < self.n_gen + self.n_comp {
